@@ -4,7 +4,7 @@ Helper lemmas for C06: pdfminer's `name2unicode` (model) against AGL section 2 (
 import PdfVerif.Spec.SimpleFont
 
 namespace PdfVerif.SimpleFont
-open PdfVerif PdfVerif.SimpleFont.Spec
+open PdfVerif PdfVerif.SimpleFont.Spec PdfVerif.Gen.FontCode
 
 /-- What the theorems need to know about a glyph list: no entry has an empty value. -/
 def GlyphListOK (gl : GlyphList) : Prop := ∀ e ∈ gl, e.2 ≠ []
@@ -22,7 +22,7 @@ theorem glLookup_ne_nil {gl : GlyphList} (h : GlyphListOK gl) {c : Name} {t : Te
 /-! ### digits -/
 
 theorem validUnicode_eq_isScalar (v : Nat) : validUnicode v = isScalar v := by
-  unfold validUnicode isScalar
+  unfold validUnicode invalidUnicode isScalar
   by_cases h1 : v ≤ 0xD7FF
   · have : ¬ (55295 < v) := by omega
     have h3 : ¬ (v > 0x10FFFF) := by omega
@@ -141,8 +141,8 @@ theorem beq_char_comm (a b : Char) : (a == b) = (b == a) := by
   · have h' : ¬ b = a := fun e => h e.symm
     rw [beq_eq_false_iff_ne.mpr h, beq_eq_false_iff_ne.mpr h']
 
-theorem isPrefixOf_uni (c : Name) : uniPrefix.isPrefixOf c = decide (c.take 3 = ['u', 'n', 'i']) := by
-  unfold uniPrefix
+theorem isPrefixOf_uni (c : Name) : UNI_PREFIX.isPrefixOf c = decide (c.take 3 = ['u', 'n', 'i']) := by
+  unfold UNI_PREFIX
   match c with
   | [] => simp [List.isPrefixOf]
   | [a] => simp [List.isPrefixOf]
@@ -152,7 +152,8 @@ theorem isPrefixOf_uni (c : Name) : uniPrefix.isPrefixOf c = decide (c.take 3 = 
       beq_char_comm 'i']
     by_cases h1 : a = 'u' <;> by_cases h2 : b = 'n' <;> by_cases h3 : d = 'i' <;> simp [h1, h2, h3]
 
-theorem isPrefixOf_u (c : Name) : ['u'].isPrefixOf c = decide (c.take 1 = ['u']) := by
+theorem isPrefixOf_u (c : Name) : U_PREFIX.isPrefixOf c = decide (c.take 1 = ['u']) := by
+  unfold U_PREFIX
   match c with
   | [] => simp [List.isPrefixOf]
   | a :: r =>
@@ -182,7 +183,9 @@ theorem comp_eq {gl : GlyphList} (hgl : GlyphListOK gl) (c : Name) (hl : lenient
   | none =>
     simp only [lenientComp, hlook, Option.isNone_none, Bool.true_and, Bool.or_eq_false_iff] at hl
     obtain ⟨hl1, hl2⟩ := hl
-    simp only [isPrefixOf_uni, isPrefixOf_u]
+    have e3 : UNI_PREFIX.length = 3 := rfl
+    have e1 : U_PREFIX.length = 1 := rfl
+    simp only [isPrefixOf_uni, isPrefixOf_u, e3, e1, UNI_GROUP, U_MIN, U_MAX]
     by_cases huni : c.take 3 = ['u', 'n', 'i']
     · -- "uni" + digits
       have hl1' : (allHex (c.drop 3) && hasLowerHex (c.drop 3)) = false := by simpa [huni] using hl1
@@ -271,7 +274,7 @@ theorem beforeDot_eq_dropSuffix : ∀ (n : Name), beforeDot n = dropSuffix n
   | [] => rfl
   | c :: cs => by
     unfold beforeDot dropSuffix
-    simp only [List.takeWhile_cons]
+    simp only [List.takeWhile_cons, SUFFIX_SEP]
     by_cases h : c = '.'
     · subst h; simp
     · have h1 : (c != '.') = true := by simp [h]
@@ -279,6 +282,7 @@ theorem beforeDot_eq_dropSuffix : ∀ (n : Name), beforeDot n = dropSuffix n
       simp only [h1, h2, if_true, Bool.false_eq_true, if_false]
       have := beforeDot_eq_dropSuffix cs
       unfold beforeDot at this
+      simp only [SUFFIX_SEP] at this
       rw [this]
 
 theorem splitOn_ne_nil (sep : Char) : ∀ (s : List Char), splitOn sep s ≠ []
@@ -403,7 +407,166 @@ theorem name2unicode_eq_aglText {gl : GlyphList} (hgl : GlyphListOK gl) (nm : Op
       have := List.any_eq_false.mp hlen c hc
       simpa using this
     rw [aglText_some]
-    simp only [name2unicode, beforeDot_eq_dropSuffix]
+    simp only [name2unicode, beforeDot_eq_dropSuffix, COMPONENT_SEP]
     exact name_core _ _ (splitOn_ne_nil _ _) (splitOn_single _ _) hshape hcomp
+
+/-! ### the grammar is inside the judged domain -/
+
+theorem isHexDigit_n : isHexDigit 'n' = false := by decide
+
+theorem drop1_of_uni {c : Name} (huni : c.take 3 = ['u', 'n', 'i']) : c.drop 1 = 'n' :: 'i' :: c.drop 3 := by
+  have hcsplit : c = ['u', 'n', 'i'] ++ c.drop 3 := by
+    conv => lhs; rw [← List.take_append_drop 3 c]
+    rw [huni]
+  conv => lhs; rw [hcsplit]
+  rfl
+
+theorem take1_of_uni {c : Name} (huni : c.take 3 = ['u', 'n', 'i']) : c.take 1 = ['u'] := by
+  have hcsplit : c = ['u', 'n', 'i'] ++ c.drop 3 := by
+    conv => lhs; rw [← List.take_append_drop 3 c]
+    rw [huni]
+  rw [hcsplit]; rfl
+
+theorem uForm_none_of_uni {c : Name} (huni : c.take 3 = ['u', 'n', 'i']) : uForm c = none := by
+  simp [uForm, take1_of_uni huni, drop1_of_uni huni, isUpperHex_n]
+
+theorem uniForm_some {c : Name} {t : Text} (h : uniForm c = some t) :
+    c.take 3 = ['u', 'n', 'i'] ∧ (c.drop 3).all isUpperHex = true := by
+  unfold uniForm at h
+  by_cases h3 : c.take 3 = ['u', 'n', 'i']
+  · refine ⟨h3, ?_⟩
+    simp only [h3, if_true] at h
+    cases hu : (c.drop 3).all isUpperHex with
+    | true => rfl
+    | false => simp [hu] at h
+  · simp [h3] at h
+
+theorem uForm_some {c : Name} (h : (uForm c).isSome = true) :
+    c.take 1 = ['u'] ∧ (c.drop 1).all isUpperHex = true := by
+  unfold uForm at h
+  by_cases h1 : c.take 1 = ['u']
+  · refine ⟨h1, ?_⟩
+    simp only [h1, if_true] at h
+    cases hu : (c.drop 1).all isUpperHex with
+    | true => rfl
+    | false =>
+      rw [hu] at h
+      simp only [Bool.false_and, Bool.false_eq_true, if_false, Option.isSome_none] at h
+  · simp [h1] at h
+
+theorem wf_not_lenient {gl : GlyphList} {c : Name} (h : wellFormedComp gl c = true) : lenientComp gl c = false := by
+  unfold lenientComp
+  cases hl : glLookup gl c with
+  | some t => simp
+  | none =>
+    simp only [wellFormedComp, hl, Option.isSome_none, Bool.false_or, Bool.or_eq_true] at h
+    simp only [Option.isNone_none, Bool.true_and, Bool.or_eq_false_iff]
+    rcases h with h | h
+    · cases hu : uniForm c with
+      | none => simp [hu] at h
+      | some t =>
+        obtain ⟨h3, hup⟩ := uniForm_some hu
+        constructor
+        · simp [no_lower_of_upper _ hup]
+        · simp [drop1_of_uni h3, allHex, isHexDigit_n]
+    · obtain ⟨h1, hup⟩ := uForm_some h
+      constructor
+      · by_cases h3 : c.take 3 = ['u', 'n', 'i']
+        · rw [uForm_none_of_uni h3] at h; simp at h
+        · simp [h3]
+      · rw [no_lower_of_upper _ hup]
+        simp only [Bool.and_false]
+
+theorem wf_nonempty {gl : GlyphList} (hgl : GlyphListOK gl) {c : Name} (h : wellFormedComp gl c = true) :
+    (aglComp gl c).isEmpty = false := by
+  unfold aglComp
+  cases hl : glLookup gl c with
+  | some t =>
+    have := glLookup_ne_nil hgl hl
+    cases t with
+    | nil => exact absurd rfl this
+    | cons _ _ => rfl
+  | none =>
+    simp only [wellFormedComp, hl, Option.isSome_none, Bool.false_or, Bool.or_eq_true] at h
+    rcases h with h | h
+    · cases hu : uniForm c with
+      | none => simp [hu] at h
+      | some t => simpa [hu] using h
+    · cases hu : uniForm c with
+      | some t =>
+        obtain ⟨h3, _⟩ := uniForm_some hu
+        rw [uForm_none_of_uni h3] at h; simp at h
+      | none =>
+        cases hv : uForm c with
+        | none => simp [hv] at h
+        | some t =>
+          simp only
+          unfold uForm at hv
+          by_cases h1 : c.take 1 = ['u']
+          · simp only [h1, if_true] at hv
+            split at hv
+            · cases hv; rfl
+            · cases hv
+          · simp [h1] at hv
+
+/-- Every glyph name of the property's grammar lies in the judged domain. -/
+theorem wellFormed_judged {gl : GlyphList} (hgl : GlyphListOK gl) (n : Name) (h : wellFormedName gl n = true) :
+    judgedName gl (some n) = true := by
+  unfold wellFormedName at h
+  simp only [judgedName, Bool.and_eq_true, Bool.or_eq_true, Bool.not_eq_true']
+  constructor
+  · apply List.any_eq_false.mpr
+    intro c hc
+    have := wf_not_lenient (List.all_eq_true.mp h c hc)
+    simp [this]
+  · right
+    apply List.all_eq_true.mpr
+    intro c hc
+    simp [wf_nonempty hgl (List.all_eq_true.mp h c hc)]
+
+/-! ### plain names (no period, no underscore): the names of the ENCODING rows -/
+
+def plainName (n : Name) : Bool := n.all (fun c => c != '.' && c != '_')
+
+theorem dropSuffix_plain : ∀ (n : Name), plainName n = true → dropSuffix n = n
+  | [], _ => rfl
+  | c :: cs, h => by
+    simp only [plainName, List.all_cons, Bool.and_eq_true, bne_iff_ne, ne_eq] at h
+    have hc : (c == '.') = false := by simpa using h.1.1
+    simp only [dropSuffix, hc, Bool.false_eq_true, if_false]
+    rw [dropSuffix_plain cs (by simpa [plainName] using h.2)]
+
+theorem splitOn_plain : ∀ (n : Name), plainName n = true → splitOn '_' n = [n]
+  | [], _ => rfl
+  | c :: cs, h => by
+    simp only [plainName, List.all_cons, Bool.and_eq_true, bne_iff_ne, ne_eq] at h
+    have hc : (c == '_') = false := by simpa using h.1.2
+    simp only [splitOn, hc, Bool.false_eq_true, if_false]
+    rw [splitOn_plain cs (by simpa [plainName] using h.2)]
+
+theorem name2unicode_plain (gl : GlyphList) (n : Name) (hp : plainName n = true) :
+    name2unicode gl (some n) = comp gl n := by
+  simp [name2unicode, beforeDot_eq_dropSuffix, COMPONENT_SEP, dropSuffix_plain n hp, splitOn_plain n hp]
+
+theorem comp_of_lookup {gl : GlyphList} {n : Name} {t : Text} (h : glLookup gl n = some t) :
+    comp gl n = some t := by
+  simp [comp, h]
+
+theorem glLookup_isSome_of_mem {gl : GlyphList} {e : Name × Text} (h : e ∈ gl) :
+    (glLookup gl e.1).isSome = true := by
+  unfold glLookup
+  cases hf : gl.find? (fun x => x.1 == e.1) with
+  | some x => rfl
+  | none =>
+    have := List.find?_eq_none.mp hf e h
+    simp at this
+
+/-- A plain name that is in the glyph list has a value and lies in the judged domain. -/
+theorem plain_listed {gl : GlyphList} {n : Name} (hp : plainName n = true) (hl : (glLookup gl n).isSome = true) :
+    (name2unicode gl (some n)).isSome = true ∧ judgedName gl (some n) = true := by
+  obtain ⟨t, ht⟩ := Option.isSome_iff_exists.mp hl
+  constructor
+  · rw [name2unicode_plain gl n hp, comp_of_lookup ht]; rfl
+  · simp [judgedName, components, dropSuffix_plain n hp, splitOn_plain n hp, lenientComp, ht]
 
 end PdfVerif.SimpleFont
